@@ -18,7 +18,9 @@ PID = 'C12'
 
 def gcc_cpp(text):
     p = subprocess.run(['cpp', '-P', '-undef', '-std=c11', '-pedantic-errors', '-nostdinc', '-'], input=text.encode('latin-1'), capture_output=True)
-    return p.returncode, p.stdout.decode('latin-1'), p.stderr.decode('latin-1')
+    # gcc copies unknown #pragma lines to its output; the tree under test consumes them
+    out = '\n'.join(l for l in p.stdout.decode('latin-1').split('\n') if not l.lstrip().startswith('#pragma'))
+    return p.returncode, out, p.stderr.decode('latin-1')
 
 
 def is_k14(exp, got):
@@ -183,6 +185,22 @@ def run(tier):
             ck.violation('redef:benign-rejected', 'benign redefinition rejected: %r then %r: %s' % (a, b, r.err[:100].decode('latin-1')), {'input.c': text})
         if not ok and r.status == 0:
             ck.violation('redef:incompatible-accepted:' + a[8:20], 'incompatible redefinition accepted: %r then %r' % (a, b), {'input.c': text}, text=a + ' / ' + b)
+    # redefinition after the macro has been used with every kind of token before its name
+    for a, use, b, ok in gen_pp.REDEF_USED:
+        text = a + '\n' + use + '\n' + b + '\n' + use.replace('int ', 'int z_') .replace('char *', 'char *z_') + '\n'
+        text = a + '\n' + use + '\n' + b + '\nint last;\n'
+        p = subprocess.run(['cpp', '-P', '-undef', '-std=c11', '-pedantic-errors', '-nostdinc', '-'], input=text.encode(), capture_output=True)
+        ck.evaluations += 1
+        if (p.returncode == 0) != ok:
+            ck.skip('redefinition-template-disagrees-with-gcc')
+            continue
+        ck.decided += 1
+        ck.distinct.add('redef-used:' + a + '|' + b)
+        r = common.cproc(exe, text=text, extra=['-E'])
+        if ok and r.status != 0:
+            ck.violation('redef:benign-rejected-after-use', 'benign redefinition after use rejected: %r, %r, %r: %s' % (a, use, b, r.err[:100].decode('latin-1')), {'input.c': text})
+        if not ok and r.status == 0:
+            ck.violation('redef:incompatible-accepted-after-use', 'incompatible redefinition accepted after use: %r then %r' % (a, b), {'input.c': text})
     # recorded finding K14: replay exactly its witness
     w = '#define M0(p) p #p\n#define M1() x\nM0(M1 ())\n'
     r = common.cproc(exe, text=w, extra=['-E'])
